@@ -794,7 +794,7 @@ Qed.
 
 Lemma compile_sync_no_ack : forall w, forallb not_plain_ack (compile true w) = true.
 Proof.
-  intro w. unfold compile. apply forallb_flat_map. intros [es border hord|rs| | |fids lvl|b f es border hord]; cbn [compile_step]; try reflexivity.
+  intro w. unfold compile. apply forallb_flat_map. intros [es border hord|rs| | |fids lvl|b f es border hord|]; cbn [compile_step]; try reflexivity.
   - unfold client_request_mops. rewrite !forallb_app, vlog_phase_no_ack, heads_no_ack, apply_phase_no_ack. reflexivity.
   - rewrite !forallb_app. apply andb_true_iff; split; [|apply andb_true_iff; split].
     + apply forallb_flat_map; intro q; apply vlog_phase_no_ack.
@@ -833,7 +833,7 @@ Theorem recovered_log_prefix : forall ms p seg nb, 0 < seg ->
 Proof. intros ms p seg nb Hs st. apply recover_log. apply (state_at_inv p ms seg nb Hs). Qed.
 
 (** C11 without GC: flushes and the L0 move keep every read *)
-Definition is_gc (m : maint) : bool := match m with MtGc _ _ => true | _ => false end.
+Definition is_gc (m : maint) : bool := match m with MtGc _ _ | MtSeal _ => true | _ => false end.
 
 Theorem maint_no_gc_stable : forall ms s k, forallb (fun m => negb (is_gc m)) ms = true -> get (maint_all ms s) k = get s k.
 Proof.
